@@ -78,6 +78,10 @@ func strs(ss []string) []any {
 	return out
 }
 
+// skipFixed (development aid for mutant testing): leave out the fixed regression inputs, so
+// that a mutant has to be found by the generated cases.
+var skipFixed = os.Getenv("VERIF_SKIP_FIXED") != ""
+
 // ---------- files ----------
 
 func workDir(t testing.TB, id string) string {
